@@ -114,8 +114,27 @@ def cancel_scenarios(draw, max_jobs=10):
 
 
 def schedules(max_size=160):
-    """Scheduling choices: element k picks enabled[k % len(enabled)]; 0 = keep running the same process."""
-    return st.lists(st.one_of(st.just(0), st.integers(0, 11)), max_size=max_size)
+    """Scheduling choices: element k picks enabled[k % len(enabled)]; 0 = keep running the same process.
+
+    Three shapes are mixed: *sparse* (mostly 0: few pre-emptions, shrinks towards the sequential schedule), *uniform*
+    (every step a fresh choice: fine-grained interleaving) and *coarse* (pick a process, then let it run for a drawn
+    number of steps: the long pauses that check-then-act races across several critical sections need)."""
+    sparse = st.lists(st.one_of(st.just(0), st.integers(0, 11)), max_size=max_size)
+    sparse_long = st.lists(st.sampled_from([0, 0, 0, 0, 0, 1, 2, 3, 5, 7]), min_size=max_size // 2, max_size=max_size)
+    uniform = st.lists(st.integers(0, 11), min_size=max_size // 3, max_size=max_size)
+    coarse = st.lists(st.tuples(st.integers(1, 11), st.integers(0, 70)), min_size=3, max_size=max(6, max_size // 8)).map(
+        lambda segs: [x for pick, run in segs for x in [pick] + [0] * run][: max_size * 3])
+    # Hypothesis draws short lists by default: the long variants make sure pre-emptions also happen late in a run
+    # PCT-style: random process priorities; 1-3 "change points" that hold a process back for a while right after its
+    # n-th release of the cluster lock (between two critical sections) -- finds ordering bugs of small depth
+    pause = st.fixed_dictionaries({"thread": st.sampled_from([0, 1, 1, 2, 2, 3, 3, 4, 5, 6]), "release": st.integers(1, 9),
+                                   "steps": st.integers(20, 250)})
+    pct = st.fixed_dictionaries({
+        "picks": st.one_of(st.just([]), sparse),
+        "prio": st.lists(st.integers(0, 9), min_size=8, max_size=8),
+        "pauses": st.lists(pause, min_size=1, max_size=3),
+    })
+    return st.one_of(sparse, sparse_long, uniform, uniform, coarse, coarse, pct, pct, pct)
 
 
 def scenario_classes(scn):
